@@ -41,7 +41,7 @@ MAX_DEPTH = 6
 MAX_NODES = 40
 RULE = ("case = 1..4 program trees (Seq | Try(filter set of 1,2,3,5 or 8 kinds or catch-all) | Throw(kind) | Call | Mark | "
         "lexical template 1..4 | Nest(cnt directly nested try blocks with one filter and handler, cnt 2..40 or around "
-        "255/256/257, 1000, 2000; open blocks per tree <= 2040 of the library's 2048)), first tree height <= 6 and <= 40 "
+        "255/256/257, 1000, 2000; open blocks per tree <= the library's 2048; nests of exactly 2047 and 2048 blocks are enumerated)), first tree height <= 6 and <= 40 "
         "nodes (templates counted expanded, a Nest counted as one level), further trees "
         "<= 12 nodes, 10 exception kinds incl. three user objects whose names are prefixes of one another; a throw is "
         "the throw macro with a short, 300 or 6000 character message, or an exception raised by a library function "
@@ -70,7 +70,7 @@ KN = ["TypeError", "KeyError", "ValueError", "IOError", "UserExc", "UserExcEOF",
 NK = len(KN)
 LIBK = (0, 1, 2, 3, 7, 8, 9)        # kinds some library function raises on request (harness/ex_exc.c lib_raise)
 ARITIES = (1, 2, 3, 5, 8)           # one real catch site per filter arity
-MAX_OPEN = 2040                     # try blocks open at the same time (EXCEPTION_MAX_DEPTH is 2048)
+MAX_OPEN = 2048                     # try blocks open at the same time (EXCEPTION_MAX_DEPTH is 2048)
 # per template: (filter arity per lexical level (0 = catch-all), number of slots)
 TMPL = {1: ([2, 1], 5), 2: ([0, 3], 5), 3: ([1, 0, 2], 8), 4: ([3, 0, 1], 7)}
 
@@ -903,8 +903,26 @@ def extra_phase(ctx, tier, stats, sample_fn):
             if res.fail:
                 fails.append((case, "[gcc -O0 build] " + res.fail))
                 break
+    # the library's buffer holds 2048 open try blocks: nests that fill it exactly, and one short of it, with the throw
+    # handled by the innermost block, passed through every block by a non-matching filter, and with a quiet body
+    nb = 0
+    if not fails:
+        for cnt in (2047, 2048):
+            for t in (["N", cnt, [0], ["X", 0], ["M"]],                       # innermost handles, all others unwind quietly
+                      ["T", "A", ["N", cnt - 1, [1], ["X", 0], ["M"]], ["M"]],  # passes through cnt-1 non-matching blocks
+                      ["N", cnt, "A", ["M"], ["M"]],                          # nothing thrown
+                      ["N", cnt, [0, 2], ["X", 2], ["X", 2]]):                # every handler rethrows: escapes at the top
+                for bld in ("asan", "plain"):
+                    case = {"trees": [t, _PROBE]}
+                    if bld == "plain":
+                        case["build"] = "plain"
+                    res = run_case(ctx, case)
+                    stats.add(case, res, sample_fn)
+                    nb += 1
+                    if res.fail:
+                        fails.append((case, res.fail))
     return {"fails": fails, "extra": {"enumerated_trees": n, "enumerated_max_size": biggest,
-                                      "enumerated_plain_build": m}}
+                                      "enumerated_plain_build": m, "buffer_boundary_nests": nb}}
 
 
 KNOWN = []
